@@ -18,6 +18,24 @@ ProtoObj == NewObj("Object", 0)
 ArrProto == [NewObj("Array", 1) EXCEPT !.props = (S_length :> DataP(IntV(0), TRUE, FALSE, FALSE)), !.order = <<S_length>>]
 Heap0 == <<ProtoObj, ArrProto>>
 
+(* 15.2.3.8 Object.seal / 15.2.3.9 Object.freeze through [[DefineOwnProperty]] (Throw = true) in  *)
+(* property creation order: [H, thr].  A descriptor equal to the current property is a no-op of *)
+(* 8.12.9 and is skipped; with the array [[DefineOwnProperty]] of 15.4.5.1 (and its deviations) *)
+(* a step may be rejected, which leaves the object partly sealed and still extensible.          *)
+RECURSIVE SealLoop(_, _, _, _)
+SealLoop(H, o, names, frz) ==
+    IF names = <<>> THEN [H |-> [H EXCEPT ![o].ext = FALSE], thr |-> ""]
+    ELSE LET p == Head(names)
+             cur == OwnProp(H, o, p)
+             nw == [cur EXCEPT !.c = FALSE, !.w = IF frz THEN FALSE ELSE cur.w]
+         IN  IF nw = cur THEN SealLoop(H, o, Tail(names), frz)
+             ELSE LET r == ADefOwn(H, o, p, FullDataDesc(nw.v, nw.w, nw.e, nw.c))
+                  IN  IF r.thr # "" THEN [H |-> r.H, thr |-> r.thr]
+                      ELSE IF ~r.ok THEN [H |-> r.H, thr |-> "TypeError"]
+                      ELSE SealLoop(r.H, o, Tail(names), frz)
+ASeal(H, o) == SealLoop(H, o, H[o].order, FALSE)
+AFreeze(H, o) == SealLoop(H, o, H[o].order, TRUE)
+
 RECURSIVE BuildElems(_, _, _, _)
 BuildElems(H, o, elems, i) ==
     IF i > Len(elems) THEN H
@@ -42,8 +60,8 @@ BuildObj(H0, ob) ==
         H5 == IF isArr /\ ~ob.lw THEN ADefOwn(H4, o, S_length, [EmptyDesc EXCEPT !.hw = TRUE, !.w = FALSE]).H ELSE H4
         H6 == CASE ob.ext = "ext" -> H5
                 [] ob.ext = "nonext" -> PreventExt(H5, o)
-                [] ob.ext = "sealed" -> Seal(H5, o)
-                [] ob.ext = "frozen" -> Freeze(H5, o)
+                [] ob.ext = "sealed" -> ASeal(H5, o).H
+                [] ob.ext = "frozen" -> AFreeze(H5, o).H
         H7 == IF isArr THEN BuildExtra(H6, 2, ob.inh, 1) ELSE H6       \* arrays inherit from Array.prototype
     IN  H7
 
@@ -116,8 +134,8 @@ StepOp(st0, a) ==
                      ELSE IF ~r.ok THEN Throw(WithH(st, r.H), "TypeError")
                      ELSE WithH(st, r.H))
           [] a.op = "delete" -> (LET r == DeleteOwn(st.H, 3, a.n.s) IN Ret(WithH(st, r.H), BoolV(r.ok)))
-          [] a.op = "freeze" -> WithH(st, Freeze(st.H, 3))
-          [] a.op = "seal" -> WithH(st, Seal(st.H, 3))
+          [] a.op = "freeze" -> (LET r == AFreeze(st.H, 3) IN IF r.thr # "" THEN Throw(WithH(st, r.H), r.thr) ELSE WithH(st, r.H))
+          [] a.op = "seal" -> (LET r == ASeal(st.H, 3) IN IF r.thr # "" THEN Throw(WithH(st, r.H), r.thr) ELSE WithH(st, r.H))
           [] a.op = "prevent" -> WithH(st, PreventExt(st.H, 3))
           [] a.op = "call" -> Call(a.m, st, 3, a.args)
 
